@@ -13,7 +13,7 @@ def run(chk, drv):
     chk.extra["rule"] = ("random well-formed schemas (all 18 field kinds × singular/optional/repeated/oneof/map, wrappers, Timestamp/Duration, "
                          "recursive messages), values biased to boundaries and to default-but-present members; plus messages that went through parse() "
                          "with unknown fields; plus messages built by Cls() and filled IN PLACE (lists extended, dicts updated, sub-messages filled through m.sub.x = …) so that "
-                         "serialized_on_wire of the holder stays False; every message is measured, then grown in place (list.append, nested), then measured again. non-trivial = at least one constructor argument; distinct by (schema, value) line")
+                         "serialized_on_wire of the holder stays False; plus valid messages measured right after an encoding of a twin FAILED part-way (unencodable last item of a repeated numeric field); every message is measured, then grown in place (list.append, nested), then measured again. non-trivial = at least one constructor argument; distinct by (schema, value) line")
     nb = 60 if quick else 600
     for bi in range(nb):
         b = W.Batch(chk.rng, "s%d" % bi, 12)
@@ -21,6 +21,7 @@ def run(chk, drv):
         one_batch(chk, drv, b)
         inplace_stage(chk, drv, b)
         oneof_history_stage(chk, b)
+        after_failure_stage(chk, b)
     scalar_sweep(chk, drv)
 
 
@@ -175,6 +176,53 @@ def inplace_stage(chk, drv, b):
                 want = "ERR" if isinstance(x, Exception) else (W.hexs(x) if isinstance(x, bytes) else str(x))
                 if (r[:3] == "ERR") != (want == "ERR") or (want != "ERR" and r != want):
                     chk.disagree(key + "-inplace", {"schema": b.schema_line(), "value": t}, r, want if want != "ERR" else repr(x))
+
+
+POISON = {"int32": -(2 ** 63) - 1, "int64": -(2 ** 63) - 1, "uint32": -(2 ** 63) - 1, "uint64": -(2 ** 63) - 1,
+          "sint32": 2 ** 64, "sint64": 2 ** 64, "enum": -(2 ** 63) - 1,
+          "fixed32": 2 ** 32, "sfixed32": 2 ** 31, "fixed64": 2 ** 64, "sfixed64": 2 ** 63, "float": 1e39}
+
+
+def poison(m):
+    """append an item that cannot be encoded to the first numeric repeated field of m (after at least one good item);
+    returns (field name, item) or None"""
+    for name, meta in type(m)._betterproto.meta_by_field_name.items():
+        if meta.proto_type in POISON:
+            try:
+                v = getattr(m, name)
+            except AttributeError:
+                continue
+            if isinstance(v, list):
+                if not v:
+                    v.append(1)
+                v.append(POISON[meta.proto_type])
+                return name, POISON[meta.proto_type]
+    return None
+
+
+def after_failure_stage(chk, b):
+    """state left behind by an encoding that FAILED part-way: a twin of each value gets an unencodable last item in a
+    repeated numeric field, every observer is called on it (each must raise), and then a fresh, valid message of the
+    same value is measured — len / dump / dump(SIZE_DELIMITED) / SerializeToString must still describe its bytes"""
+    for v in b.values:
+        try:
+            bad = bpgen.to_py(v, b.classes)
+            good = bpgen.to_py(v, b.classes)
+        except Exception:
+            continue
+        ps = poison(bad)
+        if ps is None:
+            continue
+        # the valid message needs a non-empty packed field of its own to meet whatever the failure left behind
+        getattr(good, ps[0]).append(1) if not getattr(good, ps[0]) else None
+        inp = {"schema": b.describe(), "value": bpgen.term(v), "after_failed_encode": {"field": ps[0], "item": repr(ps[1])}}
+        ob = observe(bad)
+        chk.count("after_failure_cases")
+        if not all(isinstance(x, Exception) for x in ob.values()):
+            chk.count("after_failure_poison_was_encodable")
+            continue
+        chk.case(b.schema_line() + "|poison|" + bpgen.term(v), True, {"after_failed_encode": inp["after_failed_encode"]})
+        oracle(chk, inp, observe(good))
 
 
 def boundary_ints(ty):
@@ -335,6 +383,7 @@ def search(chk):
         for v in b.values:
             m = bpgen.to_py(v, b.classes)
             oracle(chk, {"schema": b.describe(), "value": bpgen.term(v)}, observe(m))
+        after_failure_stage(chk, b)
         if chk.oracle_failures:
             return
 
@@ -351,6 +400,19 @@ def replay(chk, rp):
         m0 = from_raw_term(inp["built_in_place"].split(), schema, classes, m0)[0]
         oracle(c, inp, observe(m0))
         remeasure(c, inp, m0)
+        return bool(c.oracle_failures)
+    if "after_failed_encode" in inp and "schema" in inp:
+        schema = schema_from_desc(inp["schema"])
+        classes = bpgen.build_bp(schema)
+        v = parse_term(inp["value"].split())[0]
+        c = type(chk)(chk.pid, "quick", 0)
+        bad, good = bpgen.to_py(v, classes), bpgen.to_py(v, classes)
+        ps = poison(bad)
+        if ps is None:
+            return True
+        getattr(good, ps[0]).append(1) if not getattr(good, ps[0]) else None
+        observe(bad)
+        oracle(c, inp, observe(good))
         return bool(c.oracle_failures)
     if "value" in inp and "schema" in inp:
         schema = schema_from_desc(inp["schema"])
